@@ -629,13 +629,25 @@ def suite_reading_method(ix, require):
 # ------------------------------------------------------------------ NULL-vs-ZERO: 0 is a value, not "absent"
 
 _OPT_INT = ('Optional[int]', 'typing.Optional[int]', 'int | None', 'None | int')
+_OPT_ENV = ('Optional[Mapping[str, str]]', 'Optional[Dict[str, str]]', 'typing.Optional[Mapping[str, str]]',
+            'typing.Optional[Dict[str, str]]')
+_OPT_KINDS = _OPT_INT
 
 
 def _is_opt_int(ann) -> bool:
-    return ann is not None and unparse(ann) in _OPT_INT
+    return ann is not None and unparse(ann) in _OPT_KINDS
 
 
-def optional_int_truth_tests(ix: Index, modules) -> Tuple[int, List[Tuple[str, int, str, str]]]:
+def optional_int_truth_tests(ix: Index, modules, with_environs: bool = False) -> Tuple[int, List[Tuple[str, int, str, str]]]:
+    global _OPT_KINDS
+    _OPT_KINDS = _OPT_INT + _OPT_ENV if with_environs else _OPT_INT
+    try:
+        return _optional_truth_tests(ix, modules)
+    finally:
+        _OPT_KINDS = _OPT_INT
+
+
+def _optional_truth_tests(ix: Index, modules) -> Tuple[int, List[Tuple[str, int, str, str]]]:
     """(number of optional-int values looked at, [(relpath, line, function key, expression)]) - places where a value
     declared `Optional[int]` (a parameter, a local or an attribute assigned from one, the result of a method of the
     same class declared to return one) decides a branch by its TRUTH value (`if x`, `not x`, `x or d`, `x and y`,
@@ -668,7 +680,7 @@ def optional_int_truth_tests(ix: Index, modules) -> Tuple[int, List[Tuple[str, i
                 n_values += len(names)
                 for n in walk_own(f.node):
                     for te in _truth_tested(n):
-                        if _opt_int_expr(te, names, opt_attrs, opt_methods):
+                        if _opt_int_expr(te, names, opt_attrs, opt_methods) or _opt_member_of_typed_object(ix, m, f, te):
                             hits.append((m.relpath, te.lineno, f.key, unparse(te)))
             n_values += len(opt_attrs) + len(opt_methods)
     return n_values, sorted(set(hits))
@@ -690,6 +702,25 @@ def _opt_int_expr(e, names, opt_attrs, opt_methods) -> bool:
             and isinstance(e.func.value, ast.Name) and e.func.value.id == 'self':
         return e.func.attr in opt_methods
     return False
+
+
+def _opt_member_of_typed_object(ix: Index, m, f: FuncDef, e) -> bool:
+    """`x.member` / `x.member()` where the declared class of x (a parameter or attribute annotation the resolver
+    knows) declares `member` to give an optional number (or environment)"""
+    call = isinstance(e, ast.Call) and not e.args and not e.keywords
+    a = e.func if call else e
+    if not isinstance(a, ast.Attribute) or (isinstance(a.value, ast.Name) and a.value.id == f.self_name):
+        return False
+    try:
+        t = ix.type_of(m, f, a.value)
+    except Exception:
+        return False
+    if not isinstance(t, ClassDef):
+        return False
+    d = ix.class_member(t, a.attr)
+    if not isinstance(d, FuncDef) or not _is_opt_int(d.node.returns):
+        return False
+    return d.is_property != call
 
 
 def _truth_tested(n):
@@ -722,14 +753,14 @@ def _truth_leaves(e):
         yield e
 
 
-def check_zero_is_a_value(c: Check, rule: str, module_names, floor: int, what: str) -> None:
+def check_zero_is_a_value(c: Check, rule: str, module_names, floor: int, what: str, with_environs: bool = False) -> None:
     from ..report import VERIF_ROOT
     import os
     ix = c.ix
-    n, hits = optional_int_truth_tests(ix, [ix.module(mn) for mn in module_names])
+    n, hits = optional_int_truth_tests(ix, [ix.module(mn) for mn in module_names], with_environs)
     for relpath, line, fkey, expr in hits:
         c.bad(rule, 'zero-is-a-value/%s/%s' % (fkey, expr),
-              '`%s` is declared Optional[int] and is tested by its truth value: 0 is treated like "absent" (%s)' % (
+              '`%s` is declared optional and is tested by its truth value: 0 / empty is treated like "absent" (%s)' % (
                   expr, what), '%s:%d' % (relpath, line))
     if not hits:
         c.ok(rule, 'zero-is-a-value/%s' % '+'.join(mn.split('.')[-1] for mn in module_names),
